@@ -354,7 +354,7 @@ fn render<'a, T: DiffableStr + ?Sized + 'a>(d: &'a TextDiff<'a, 'a, 'a, T>, radi
 /// header values 3..=5: old and new are two VIEWS INTO ONE BUFFER (`c.old`; the length of `c.new`
 /// picks the shape and the cut, see common::alias_views); the header is `header - 3`
 fn alias_of(c: &Case) -> Option<(std::ops::Range<usize>, std::ops::Range<usize>)> {
-    if c.header < 3 {
+    if c.header < 3 || c.header >= 6 {
         return None;
     }
     let t = TextCase { old: c.old.clone(), new: c.new.clone(), tok: 0, alg: c.alg, bytes: c.bytes, opt: 0 };
@@ -387,16 +387,34 @@ fn render_case(c: &Case) -> Result<Rendered, String> {
             }
         });
     }
-    guard(|| {
+    // header 6..9: the line diff is made under a deadline that has already passed; 9..12: under a
+    // (virtual) clock that runs out at a later probe.  It is a line diff all the same
+    let mut cfg = cfg;
+    let mut virtual_k = None;
+    if c.header >= 9 {
+        cfg.deadline(far_future());
+        virtual_k = Some(1 + (c.old.0.len() % 5) as u64);
+    } else if c.header >= 6 {
+        if let Some(past) = std::time::Instant::now().checked_sub(std::time::Duration::from_secs(5)) {
+            cfg.deadline(past);
+        }
+    }
+    let r = guard(|| {
         similar::verif::swap::reset_swaps();
         if c.bytes || c.old.as_str().is_none() || c.new.as_str().is_none() {
+            similar::verif::clock::install(virtual_k);
             let d = cfg.diff_lines(&c.old.0[..], &c.new.0[..]);
+            similar::verif::clock::install(None);
             render(&d, c.radius, header)
         } else {
+            similar::verif::clock::install(virtual_k);
             let d = cfg.diff_lines(c.old.as_str().unwrap(), c.new.as_str().unwrap());
+            similar::verif::clock::install(None);
             render(&d, c.radius, header)
         }
-    })
+    });
+    similar::verif::clock::install(None);
+    r
 }
 
 fn remove_marker_lines(b: &[u8]) -> Vec<u8> {
@@ -456,8 +474,8 @@ fn judge(c: &Case, r: &Rendered) -> Result<(usize, usize), (Kind, String)> {
             escape_bytes(&r.history_writer.0[..r.history_writer.0.len().min(300)]), escape_bytes(&r.history_writer.1[..r.history_writer.1.len().min(300)]), escape_bytes(&r.writer[..r.writer.len().min(300)])
         )));
     }
-    // the quick function equals the builder
-    if valid {
+    // the quick function equals the builder (it takes no deadline: not for deadline-made diffs)
+    if valid && c.header < 6 {
         let (o, n) = (c.old.as_str().unwrap(), c.new.as_str().unwrap());
         let alg = alg_of(c.alg);
         let radius = c.radius;
@@ -523,7 +541,8 @@ pub fn check_case(c0: &Case, obs: &mut Obs) -> Verdict {
     // the two texts
     let eff = effective(c0);
     let c = &eff;
-    obs.class_if(c0.header >= 3, "old and new are views into one buffer");
+    obs.class_if(c0.header >= 3 && c0.header < 6, "old and new are views into one buffer");
+    obs.class_if(c0.header >= 6, "line diff made under a deadline that expires (before the start or in mid-run)");
     if c.old == c.new {
         if let Err(m) = equal_inputs_with_deadline(c) {
             return Verdict::Fail(format!("{} radius {}: {}", alg_name(c.alg), c.radius, m));
@@ -583,7 +602,7 @@ fn strat(tier: Tier) -> BoxedStrategy<Case> {
         1 => crate::gen::text_pair(30, false),
     ];
     let radius2 = prop_oneof![Just(0usize), Just(1usize), Just(3usize)];
-    let plain = (texts, 0u8..3, any::<bool>(), radius, prop_oneof![9 => 0u8..3, 1 => 3u8..6]).prop_map(|((old, new), alg, bytes, radius, header)| Case { old, new, alg, bytes, radius, header });
+    let plain = (texts, 0u8..3, any::<bool>(), radius, prop_oneof![18 => 0u8..3, 2 => 3u8..6, 1 => 6u8..12]).prop_map(|((old, new), alg, bytes, radius, header)| Case { old, new, alg, bytes, radius, header });
     // many distinct lines (> 255 ids) in texts of 101..600 lines
     let distinct = (distinct_line_case(tier.pick(300, 600)), radius2.clone(), 0u8..3).prop_map(|(t, radius, header)| Case { old: t.old, new: t.new, alg: t.alg, bytes: t.bytes, radius, header });
     // a very long line (more than 8 KiB) among short ones
@@ -635,7 +654,7 @@ impl Prop for C05 {
     type Case = Case;
     const ID: &'static str = "C05";
     fn rule() -> String {
-        "1 random case in 10 renders the diff of two VIEWS INTO ONE BUFFER (truncated copy, tail view, adjacent views); cases = (old, new line texts, algorithm, str | [u8], context radius in {0,1,2,3,4,7,50} and (1 case in ~40) radii at the top of the integer range, header in {none, (a,b), names with space/tab/non-ASCII}); texts are line lists with LF/CRLF/CR terminators, optional missing final newline, many repeated lines, diff-looking lines ('-y', '+z', '@@ -1 +1 @@', '\\ No newline at end of file', '--- a'), for [u8] invalid UTF-8; new = independent or mutate(old) at line level; plus texts of 101-300/600 almost-all-distinct lines, texts containing a line of more than 8 KiB, and two fixed 70 000-line texts; enumeration of all pairs of texts of <= 4 (thorough 5) lines over {a LF, b LF, a CRLF, a (unterminated)} x radius {0,1}. Oracle: independent reader (file header, hunk headers, body lines, marker) and strict applier: counts == body counts, starts == true positions, increasing and non-overlapping, every context/deletion line equals the old line at that position, result == new byte for byte, marker exactly on unterminated lines, equal inputs => empty output, each hunk has a change, <= radius context at the edges, deletions before insertions; Display == writer (UTF-8) or == lossy(writer); to_writer into a writer that accepts only 1/3/7/64 bytes per call == to_writer into a Vec; per-hunk rendering and hunk.header() agree; missing_newline_hint(false) == output without marker lines; udiff::unified_diff == builder. Header start/count failures are re-executed with the swap repair on: if they vanish they are known finding D7. Non-trivial = at least one hunk; distinct = distinct serialized case.".into()
+        "1 random case in 10 renders the diff of two VIEWS INTO ONE BUFFER (truncated copy, tail view, adjacent views); 1 in 20 renders a line diff that was made under a deadline which had passed before the start or runs out at one of the first probes; cases = (old, new line texts, algorithm, str | [u8], context radius in {0,1,2,3,4,7,50} and (1 case in ~40) radii at the top of the integer range, header in {none, (a,b), names with space/tab/non-ASCII}); texts are line lists with LF/CRLF/CR terminators, optional missing final newline, many repeated lines, diff-looking lines ('-y', '+z', '@@ -1 +1 @@', '\\ No newline at end of file', '--- a'), for [u8] invalid UTF-8; new = independent or mutate(old) at line level; plus texts of 101-300/600 almost-all-distinct lines, texts containing a line of more than 8 KiB, and two fixed 70 000-line texts; enumeration of all pairs of texts of <= 4 (thorough 5) lines over {a LF, b LF, a CRLF, a (unterminated)} x radius {0,1}. Oracle: independent reader (file header, hunk headers, body lines, marker) and strict applier: counts == body counts, starts == true positions, increasing and non-overlapping, every context/deletion line equals the old line at that position, result == new byte for byte, marker exactly on unterminated lines, equal inputs => empty output, each hunk has a change, <= radius context at the edges, deletions before insertions; Display == writer (UTF-8) or == lossy(writer); to_writer into a writer that accepts only 1/3/7/64 bytes per call == to_writer into a Vec; per-hunk rendering and hunk.header() agree; missing_newline_hint(false) == output without marker lines; udiff::unified_diff == builder (diffs made without a deadline). Header start/count failures are re-executed with the swap repair on: if they vanish they are known finding D7. Non-trivial = at least one hunk; distinct = distinct serialized case.".into()
     }
     fn assumptions() -> Vec<String> {
         vec![
@@ -656,7 +675,7 @@ impl Prop for C05 {
             },
             Stage {
                 name: "huge",
-                kind: StageKind::Enumerate { scope: "2 fixed line texts with 70 000 distinct lines (token ids beyond 16 bits), radius 3".into(), exhaustive: true, gen: |_t, f| {
+                kind: StageKind::Enumerate { scope: "5 fixed line texts: 2 with 70 000 distinct lines (token ids beyond 16 bits), radius 3, and per algorithm 1100 x 1100 unrelated distinct lines between a common head and tail".into(), exhaustive: true, gen: |_t, f| {
                     for t in huge_line_cases() {
                         if !f(Case { old: t.old, new: t.new, alg: t.alg, bytes: t.bytes, radius: 3, header: 1 }) {
                             return;
